@@ -727,5 +727,5 @@ func TestRegister(t *testing.T)     { vt.Run(t, prop, "TestRegister", genCase, c
 func TestLinearizable(t *testing.T) { vt.Run(t, prop, "TestLinearizable", genConc, checkConc) }
 
 func TestReplay(t *testing.T) {
-	vt.Replay(t, map[string]func(json.RawMessage) error{"TestRegister": vt.Decode(checkCase), "TestLinearizable": vt.Decode(checkConc), "TestCreated": vt.Decode(checkCreated)})
+	vt.Replay(t, map[string]func(json.RawMessage) error{"TestRegister": vt.Decode(checkCase), "TestLinearizable": vt.Decode(checkConc), "TestCreated": vt.Decode(checkCreated), "TestSeveralProperties": vt.Decode(checkSeveral)})
 }
